@@ -158,7 +158,7 @@ fn gen_ser_msg(rng: &mut Rng, parsed_ok: bool) -> Item {
         0..=3 => {
             let mut m = gen::handshake(rng, "client_hello", if big { 60000 } else { 200 });
             if big && rng.chance(1, 2) {
-                let n = rng.urange(8000, 32767);
+                let n = if rng.chance(1, 2) { *rng.pick(&[16383usize, 16384, 16385, 32766, 32767]) } else { rng.urange(8000, 32767) };
                 m.set("ciphers", Val::Bytes(rng.bytes(n * 2)));
             }
             if big && rng.chance(1, 2) {
@@ -239,10 +239,12 @@ fn gen_ser_msg(rng: &mut Rng, parsed_ok: bool) -> Item {
 fn gen_ext(rng: &mut Rng) -> Item {
     match rng.below(5) {
         0 | 1 => {
-            let n = if rng.chance(1, 10) { rng.urange(5, 60) } else { rng.small_len(4) };
+            // ServerNameList<1..2^16-1>: at least one name
+            let n = if rng.chance(1, 10) { rng.urange(5, 60) } else { rng.small_len(4).max(1) };
             let names: Vec<Vec<u8>> = (0..n)
                 .map(|_| {
-                    let l = if rng.chance(1, 6) { *rng.pick(&[0usize, 1, 255, 256, 257, 1000, 20000]) } else { rng.small_len(60) };
+                    // HostName<1..2^16-1>: at least one byte
+                    let l = if rng.chance(1, 6) { *rng.pick(&[1usize, 2, 255, 256, 257, 1000, 20000]) } else { rng.small_len(60).max(1) };
                     rng.bytes(l)
                 })
                 .collect();
@@ -254,9 +256,10 @@ fn gen_ext(rng: &mut Rng) -> Item {
             let types: Vec<u8> = (0..n).map(|_| if rng.chance(3, 4) { 0 } else { rng.u8() }).collect();
             Item::new("xsni").list("names", names).bytes("types", &types)
         }
-        2 => Item::new("xmaxfrag").int("v", rng.u8() as u64),
+        // (enum { 2^9(1), 2^10(2), 2^11(3), 2^12(4) }; named_group_list<2..2^16-1>: the wire limits)
+        2 => Item::new("xmaxfrag").int("v", rng.range(1, 4)),
         3 => {
-            let n = if rng.chance(1, 4) { *rng.pick(&[0usize, 1, 127, 128, 255, 256]) } else { rng.small_len(20) };
+            let n = if rng.chance(1, 4) { *rng.pick(&[1usize, 2, 127, 128, 255, 256, 32766]) } else { rng.small_len(20).max(1) };
             Item::new("xgroups").bytes("groups", &rng.bytes(n * 2))
         }
         _ => {
@@ -866,6 +869,12 @@ fn op_rec(ctx: &mut Ctx, scn: &Scenario, op: &Item, mode: u64, k: usize) {
     ctx.log(10, matches!(out, SerOut::Ok { .. }) as u64, accepted.len() as u64);
     ctx.trace(10, (matches!(out, SerOut::Ok { .. }) as u64) | eff_mode << 1 | (items.len() as u64) << 4, accepted.len());
     ctx.cell("ser", 10 * 18 + (ctype == 20) as u32 * 6 + eff_mode.min(5) as u32);
+    if payload.len() > 16384 && !matches!(out, SerOut::Ok { .. }) {
+        // a TLSPlaintext fragment is at most 2^14 bytes on the wire (the 2^14+256 of C02 is the read
+        // cap): above it the serializer may refuse; if it answers Ok the oracles below apply
+        ctx.count("oracle/record_above_2p14_refused", 1);
+        return;
+    }
     if !sink_oracle(ctx, &what, eff_mode, k, &out, &accepted, &reference, all_sup) {
         return;
     }
